@@ -170,6 +170,12 @@ def plan(tier):
             if heavy and (not thorough or Dl + Dr > 64 or (op != 'multiply' and max(Dl, Dr) > 33)):
                 skipped.append('%s %s %s: multiplier/divider equality beyond SAT budget in this tier' % (A, sym, B))
                 continue
+            if op in ('divide', 'modulo') and (Dl, nl, Dr, nr) != (4, 'i8', 8, 'u8'):
+                # instantiations whose divisor (or, for %, dividend) has more digits / a wider rep than the result rep hit the known
+                # finding C05-divmod-operand-narrowed; it is registered on one witness instantiation (4i8_8u8), the others are not planned
+                if nl != nr or (op == 'divide' and Dr > Dl) or (op == 'modulo' and Dr != Dl) or max(Dl, Dr) > 16:
+                    skipped.append('%s %s %s: same defect class as the registered finding, or divider obligation beyond SAT budget' % (A, sym, B))
+                    continue
             if prod_bits > 127 or (op in ('add', 'subtract') and max(Dl, Dr) + 1 > 127):
                 skipped.append('%s %s %s: result needs wide_integer storage (see C10)' % (A, sym, B))
                 continue
@@ -231,7 +237,7 @@ def plan(tier):
         jobs.append(Job('%s.L3.%s' % (PROP, tag), kname, r'^auto cnl::_impl::operator<<<cnl::_impl::wrapper<', c_shl(D, LR, R, tag), via=sname,
                         shim=sname, shim_types=[short_of(LR)], prop=PROP, timeout=120, layer=3,
                         oracle=(lambda D, LR, R: lambda a: None if not ((-(2 ** D - 1) if LR.signed else 0) <= a <= 2 ** D - 1) else ('value', a * 2 ** R))(D, LR, R)))
-    jobs.append(('LEAVES', kname, P_PLAIN, c_plain_leaf, 'L0.plain_op', dict(solvers=('cadical', 'kissat'), timeout=900)))
+    jobs.append(('LEAVES', kname, P_PLAIN, c_plain_leaf, 'L0.plain_op', dict(abstract_mul=True, abstract_div=True, timeout=300)))
     k = Kernel(kname, ''.join(src), [], 'elastic_integer operators')
     meta = {'instantiations': n,
             'explanation': 'exact value and declared-range postconditions per layer; digits/signedness of the result type are read from the IR as the library reports them',
